@@ -35,10 +35,12 @@ package connection
 //@   |   && forall(k, 0, len(c.bufferedMsg), c.bufferedMsg[k] == last[k + count])
 //@   ensures[C15:no-bytes-on-error] err != nil ==> count == 0 && decodes == 0 && len(c.bufferedMsg) == 0
 //@   loop 1
+//@     at for len(c.bufferedMsg) == 0
 //@     invariant[C15:refill-a] reads == 0 ==> decodes == 0 && c.bufferedMsg == old(c.bufferedMsg)
 //@     invariant[C15:refill-b] reads > 0 ==> old(len(c.bufferedMsg)) == 0 && (len(c.bufferedMsg) == 0 ==> decodes == 0) && (len(c.bufferedMsg) > 0 ==> decodes == 1 && c.bufferedMsg == last)
 //@     invariant[C15:refill-c] reads >= 0 && (base(last) == 0 || !allocated0(base(last))) && disjoint(bs, c.bufferedMsg)
 //@   loop 2
+//@     at for count = 0; count < len(bs) && count < len(c.bufferedMsg); count++
 //@     assigns elems(bs)
 //@     invariant[C15:copy-range] 0 <= count && count <= len(bs) && count <= len(c.bufferedMsg)
 //@     invariant[C15:copy-prefix] forall(k, 0, count, bs[k] == c.bufferedMsg[k])
@@ -61,6 +63,7 @@ package connection
 // upgraded websocket in a fresh WebsocketNetConn (nothing shared with other connections), dials the configured local
 // port, and copies each direction once between exactly these two ends.
 //@ func Handler$1 props(C15,C16,C07)
+//@   at if !websocket.IsWebSocketUpgrade(r) || r.URL.Path != StreamingPath
 //@   requires w != nil && r != nil && r.URL != nil && passthroughHandler != nil
 //@   ghost upOK bool = false
 //@   ghost dialOK bool = false
@@ -99,6 +102,7 @@ package connection
 // the far peer can observe end-of-stream; the other direction then fails on the closed connection and the handler's
 // deferred closes release both ends.
 //@ func Handler$1$1 props(C15,C16,C07)
+//@   at io.Copy(backendConn, frontendConn)
 //@   requires frontendConn != nil && backendConn != nil
 //@   ghost closedDst int = 0
 //@   call (net.Conn).Close
@@ -111,6 +115,7 @@ package connection
 //@     do copies = copies + 1
 //@   ensures[C15:one-copy-loop-per-direction] copies == 1
 //@ func Handler$1$2 props(C15,C16,C07)
+//@   at io.Copy(frontendConn, backendConn)
 //@   requires frontendConn != nil && frontendConn.Conn != nil && backendConn != nil
 //@   ghost closedDst int = 0
 //@   call (*websocket.Conn).Close
